@@ -14,6 +14,9 @@ CHECKS={
  'C04':dict(technique='grammar-based and mutation-based fuzzing of whole projects through a subprocess compile worker with watchdog; oracle = totality invariants (no panic/abort/hang, code xor diagnostics, located diagnostics, module loads in Node and builds every requested parser)',
    text='Exploration: tens of thousands of generated projects per run (whole-syntax grammar incl. unsupported forms, token/byte mutations and splices of the repository corpus, multi-file projects with missing/cyclic imports, semantic-operator stress, random settings). A crash or hang of the compiler is observed from outside the process, so stack overflows and infinite loops are verdicts, not harness failures.',
    note='Trusted: wall-clock bound for termination (10 s, then 60 s alone), 16 MiB worker stack, the location rule (a diagnostic may lack a range only for a file that is missing or does not parse).', ref='DESIGN.md section 2 C04'),
+ 'C05':dict(technique='property-based testing of the subtyping engine through its public API: generated type pairs (B = one structural edit of A) decided by beff, judged by a set-theoretic reference that enumerates exact values of A over the pair\'s vocabulary closure and tests open membership in B (witness search in both directions)',
+   text='Exploration: 30k pairs per quick run; a "yes" is refuted by any enumerated exact value of A outside B (sound regardless of completeness), a "no" is refuted only when the enumeration was complete and every value lies in B; plus is_same_type consistency, independence from memo state (fresh context) and termination (subprocess watchdog).',
+   note='Trusted: reference membership with TypeScript null/undefined reading; the small-model bound used for the "no" direction (stated in the evidence assumptions).', ref='DESIGN.md section 2 C05'),
  'C11':dict(technique='property-based testing: strict-mode verdicts of generated validators vs reference strict membership, with undeclared keys injected at random object positions',
    text='Exploration weighted to intersections/unions/nesting/records; oracle = reference "no undeclared key at any object position" + strict implies default.',
    note='Trusted: reference declared-key computation (intersection = union of members\' keys, union = matching branch, index signature admits all keys).', ref='DESIGN.md section 2 C11'),
